@@ -1193,8 +1193,14 @@ func (g *Gen) instr(in ssa.Instruction, st *State) {
 		m, k, val := g.val(v.Map, st), g.val(v.Key, st), g.val(v.Value, st)
 		kv, kd, vals, dom := w.mapHeaps(st, mt)
 		g.addOb("nilmap", fmt.Sprintf("nilmap@%d", g.w.prog.Fset.Position(v.Pos()).Line), v.Pos(), st, fmt.Sprintf("(not (= %s 0))", m.S))
-		st.heap[kv] = T(fmt.Sprintf("(store %s %s (store (select %s %s) %s %s))", vals.S, m.S, vals.S, m.S, k.S, val.S), vals.Sort)
-		st.heap[kd] = T(fmt.Sprintf("(store %s %s (store (select %s %s) %s true))", dom.S, m.S, dom.S, m.S, k.S), dom.Sort)
+		// the updated heaps are NAMED: the update mentions the old heap twice, so nesting the text would double it per
+		// store (a 25-entry map literal would need 2^25 copies)
+		nv := w.fresh("Hmu", vals.Sort)
+		nd := w.fresh("Hmd", dom.Sort)
+		w.assume(fmt.Sprintf("(= %s (store %s %s (store (select %s %s) %s %s)))", nv.S, vals.S, m.S, vals.S, m.S, k.S, val.S))
+		w.assume(fmt.Sprintf("(= %s (store %s %s (store (select %s %s) %s true)))", nd.S, dom.S, m.S, dom.S, m.S, k.S))
+		st.heap[kv] = nv
+		st.heap[kd] = nd
 	case *ssa.Send, *ssa.Select, *ssa.Jump, *ssa.If:
 	case *ssa.Return:
 		if g.inlining == 0 {
